@@ -1339,3 +1339,517 @@ Proof.
   - intros k Hk. rewrite length_read_col in Hk. rewrite read_col_get by exact Hk. rewrite pget_idperm by exact Hk.
     rewrite c_make_content by assumption. symmetry. apply dense_of_entries_get; [exact Hin|lia].
 Qed.
+
+(* ================================================================ histories: one invariant, kept by every operation *)
+Definition c_kind (c : acol) : Z := match c with ASp _ => 0 | AHeap _ => 1 | ALazy _ => 2 end.
+Definition col_inv (p : Z) (nr : nat) (kind : Z) (c : acol) : Prop := c_wf p c /\ c_ok nr c /\ c_kind c = kind.
+Definition perm_inv (nr : nat) (i2r r2i : list Z) : Prop :=
+  length i2r = nr /\ length r2i = nr /\
+  (forall r, 0 <= r < Z.of_nat nr -> 0 <= pget i2r r < Z.of_nat nr /\ pget r2i (pget i2r r) = r) /\
+  (forall q, 0 <= q < Z.of_nat nr -> 0 <= pget r2i q < Z.of_nat nr /\ pget i2r (pget r2i q) = q).
+Definition m_inv (p : Z) (nr : nat) (kind : Z) (m : amat) : Prop :=
+  0 < p /\ 0 <= a_next m /\ perm_inv nr (a_i2r m) (a_r2i m) /\
+  (a_sw m = false -> a_i2r m = idperm nr /\ a_r2i m = idperm nr) /\
+  (forall c, In (Some c) (a_cols m) -> col_inv p nr kind c).
+
+Lemma same_kind_of_kind a b : c_kind a = c_kind b -> same_kind a b.
+Proof. destruct a; destruct b; cbn; intros H; try exact I; discriminate. Qed.
+
+(* ---- dictionaries *)
+Lemma length_idperm nr : length (idperm nr) = nr.
+Proof. unfold idperm. rewrite map_length, seq_length. reflexivity. Qed.
+Lemma perm_inv_id nr : perm_inv nr (idperm nr) (idperm nr).
+Proof.
+  unfold perm_inv. rewrite length_idperm. split; [reflexivity|]. split; [reflexivity|].
+  split; intros r Hr; rewrite (pget_idperm nr r) by lia; rewrite (pget_idperm nr r) by lia; lia.
+Qed.
+Lemma perm_inv_swap nr i2r r2i r1 r2 : perm_inv nr i2r r2i -> 0 <= r1 < Z.of_nat nr -> 0 <= r2 < Z.of_nat nr ->
+  perm_inv nr (pset (pset i2r r1 (pget i2r r2)) r2 (pget i2r r1))
+              (pset (pset r2i (pget i2r r1) (pget r2i (pget i2r r2))) (pget i2r r2) (pget r2i (pget i2r r1))).
+Proof.
+  intros [L1 [L2 [H1 H2]]] Hr1 Hr2.
+  destruct (H1 r1 Hr1) as [B1 E1]. destruct (H1 r2 Hr2) as [B2 E2].
+  set (i1 := pget i2r r1) in *. set (i2 := pget i2r r2) in *.
+  assert (G1 : forall k, 0 <= k -> pget (pset (pset i2r r1 i2) r2 i1) k = if k =? r2 then i1 else if k =? r1 then i2 else pget i2r k).
+  { intros k Hk. rewrite pget_pset by (rewrite ?length_pset; lia). rewrite pget_pset by lia. reflexivity. }
+  assert (G2 : forall k, 0 <= k -> pget (pset (pset r2i i1 (pget r2i i2)) i2 (pget r2i i1)) k =
+                                  if k =? i2 then pget r2i i1 else if k =? i1 then pget r2i i2 else pget r2i k).
+  { intros k Hk. rewrite pget_pset by (rewrite ?length_pset; lia). rewrite pget_pset by lia. reflexivity. }
+  unfold perm_inv. rewrite !length_pset. split; [exact L1|]. split; [exact L2|]. split.
+  - intros r Hr. destruct (H1 r Hr) as [Br Er]. rewrite G1 by lia.
+    destruct (r =? r2) eqn:Ea; [|destruct (r =? r1) eqn:Eb].
+    + split; [lia|]. rewrite G2 by lia. destruct (i1 =? i2) eqn:Ec.
+      * assert (r1 = r2) by (rewrite <- E1, <- E2; f_equal; lia). lia.
+      * rewrite Z.eqb_refl. lia.
+    + split; [lia|]. rewrite G2 by lia. rewrite Z.eqb_refl. lia.
+    + split; [lia|]. rewrite G2 by lia.
+      destruct (pget i2r r =? i2) eqn:Ec; [assert (r = r2) by (rewrite <- Er, <- E2; f_equal; lia); lia|].
+      destruct (pget i2r r =? i1) eqn:Ed; [assert (r = r1) by (rewrite <- Er, <- E1; f_equal; lia); lia|]. exact Er.
+  - intros q Hq. destruct (H2 q Hq) as [Bq Eq]. rewrite G2 by lia.
+    destruct (q =? i2) eqn:Ea; [|destruct (q =? i1) eqn:Eb].
+    + rewrite E1. split; [lia|]. rewrite G1 by lia. destruct (r1 =? r2) eqn:Ec; [subst i1 i2; assert (r1 = r2) by lia; subst; lia|].
+      rewrite Z.eqb_refl. lia.
+    + rewrite E2. split; [lia|]. rewrite G1 by lia. rewrite Z.eqb_refl. lia.
+    + split; [lia|]. rewrite G1 by lia.
+      destruct (pget r2i q =? r2) eqn:Ec; [assert (q = i2) by (rewrite <- Eq; unfold i2; f_equal; lia); lia|].
+      destruct (pget r2i q =? r1) eqn:Ed; [assert (q = i1) by (rewrite <- Eq; unfold i1; f_equal; lia); lia|]. exact Eq.
+Qed.
+Lemma length_reset_below : forall k (l0 : list Z) i, length (reset_below l0 i k) = length l0.
+Proof. induction k as [|k IH]; intros l0 i; [reflexivity|]. cbn [reset_below]. rewrite IH, length_pset. reflexivity. Qed.
+Lemma reset_below_full l : reset_below l 0 (length l) = idperm (length l).
+Proof.
+  apply (nth_ext _ _ 0 0).
+  - rewrite length_idperm. apply length_reset_below.
+  - intros n Hn. rewrite length_reset_below in Hn.
+    pose proof (pget_reset_below (length l) l 0 (Z.of_nat n) ltac:(lia) ltac:(lia) ltac:(lia)) as H.
+    assert ((0 <=? Z.of_nat n) && (Z.of_nat n <? 0 + Z.of_nat (length l)) = true) as E by lia. rewrite E in H.
+    pose proof (pget_idperm (length l) (Z.of_nat n) ltac:(lia)) as H'.
+    unfold pget in H, H'. assert (Z.of_nat n <? 0 = false) as E2 by lia. rewrite E2 in H, H'. rewrite Nat2Z.id in H, H'.
+    rewrite (nth_indep _ 0 (Z.of_nat n)) by (rewrite length_reset_below; exact Hn).
+    rewrite (nth_indep (idperm (length l)) 0 (Z.of_nat n)) by (rewrite length_idperm; exact Hn).
+    rewrite H, H'. reflexivity.
+Qed.
+
+(* ---- rows of the results stay in range *)
+Lemma gmerge_rows_in nr ft fs fu t : forall s, rows_in nr t -> rows_in nr s -> rows_in nr (gmerge ft fs fu t s).
+Proof.
+  induction t as [|[rt vt] t' IHt]; intros s Ht Hs.
+  - rewrite gmerge_nil_l. intros e He. apply in_map_iff in He. destruct He as [e0 [<- He0]]. simpl. apply Hs. exact He0.
+  - induction s as [|[rs vs] s' IHs].
+    + change (gmerge ft fs fu ((rt, vt) :: t') []) with (map (fun e => (fst e, ft (snd e))) ((rt, vt) :: t')).
+      intros e He. apply in_map_iff in He. destruct He as [e0 [<- He0]]. simpl. apply Ht. exact He0.
+    + assert (Ht' : rows_in nr t') by (intros e He; apply Ht; right; exact He).
+      assert (Hs' : rows_in nr s') by (intros e He; apply Hs; right; exact He).
+      rewrite gmerge_cons. destruct (rt <? rs).
+      * intros e [<-|He]; [apply (Ht (rt, vt)); left; reflexivity|]. revert e He. apply IHt; assumption.
+      * destruct (rs <? rt).
+        -- intros e [<-|He]; [apply (Hs (rs, vs)); left; reflexivity|]. revert e He. apply IHs. exact Hs'.
+        -- destruct (fu vt vs =? 0); [apply IHt; assumption|].
+           intros e [<-|He]; [apply (Ht (rt, vt)); left; reflexivity|]. revert e He. apply IHt; assumption.
+Qed.
+Lemma rows_in_map nr f l : rows_in nr l -> rows_in nr (map (fun e => (fst e, f (snd e))) l).
+Proof. intros H e He. apply in_map_iff in He. destruct He as [e0 [<- He0]]. simpl. apply H. exact He0. Qed.
+Lemma rows_in_app nr a b : rows_in nr a -> rows_in nr b -> rows_in nr (a ++ b).
+Proof. intros Ha Hb e He. apply in_app_or in He. destruct He; [apply Ha|apply Hb]; assumption. Qed.
+Lemma rows_in_nil nr : rows_in nr [].
+Proof. intros e []. Qed.
+Lemma reduced_filter p f l : reduced p l -> reduced p (filter f l).
+Proof. intros H e He. apply filter_In in He. apply H. tauto. Qed.
+Lemma reduced_scale p v l : 0 < p -> reduced p (map (fun e => (fst e, fmul p (snd e) v)) l).
+Proof. intros Hp e He. apply in_map_iff in He. destruct He as [e0 [<- _]]. simpl. unfold fmul. apply Z.mod_pos_bound. lia. Qed.
+Lemma hp_maybe_prune_rows_in p nr c : rows_in nr (fst c) -> rows_in nr (fst (hp_maybe_prune p c)).
+Proof.
+  intros H. unfold hp_maybe_prune, hp_prune. destruct (_ <? _); [|exact H]. destruct (snd c =? 0); [exact H|].
+  cbn [fst]. apply hp_pop_all_rows_in. exact H.
+Qed.
+
+Lemma sp_ops_rows_in p nr val t s : rows_in nr t -> rows_in nr s ->
+  rows_in nr (sp_add p t s) /\ rows_in nr (sp_mta p val t s) /\ rows_in nr (sp_msa p val t s).
+Proof.
+  intros Ht Hs. unfold sp_add, sp_mta, sp_msa. split; [|split].
+  - apply gmerge_rows_in; assumption.
+  - destruct (val =? 0); apply gmerge_rows_in; try assumption. apply rows_in_nil.
+  - destruct (val =? 0); [exact Ht|apply gmerge_rows_in; assumption].
+Qed.
+
+(* the entries another column reads from a column in range are in range *)
+Lemma c_raw_rows_in nr c : c_ok nr c -> rows_in nr (c_raw c).
+Proof. destruct c; cbn [c_ok c_raw]; tauto. Qed.
+
+Lemma column_ops_keep_inv p nr kind val t s : 0 < p -> col_inv p nr kind t -> col_inv p nr kind s ->
+  col_inv p nr kind (c_add p t s) /\ col_inv p nr kind (c_mta p val t s) /\ col_inv p nr kind (c_msa (all_fixed false) p val t s).
+Proof.
+  intros Hp [Wt [Ot Kt]] [Ws [Os Ks]].
+  assert (K : same_kind t s) by (apply same_kind_of_kind; congruence).
+  destruct (column_ops_keep_wf p val t s Hp Wt Ws K) as [W1 [W2 W3]].
+  unfold col_inv.
+  destruct t as [lt|ht|zt]; destruct s as [ls|hs|zs]; try contradiction; cbn [c_add c_mta c_msa c_ok c_kind c_raw c_wf] in *.
+  - destruct Ot as [St Rt]. destruct Os as [Ss Rs].
+    destruct (sp_ops_rows_in p nr val lt ls Rt Rs) as [R1 [R2 R3]]. tauto.
+  - destruct hs as [ls n]. cbn [fst] in *.
+    assert (H1 : rows_in nr (fst (hp_add p ht ls))).
+    { unfold hp_add. destruct ls as [|e hs']; [exact Ot|]. destruct ht as [[|e0 ht'] n0]; cbn [fst snd]; [exact Os|].
+      apply hp_maybe_prune_rows_in. cbn [fst]. apply rows_in_app; assumption. }
+    assert (H2 : rows_in nr (fst (hp_mta p val ht ls))).
+    { unfold hp_mta. destruct (val =? 0); cbv beta iota zeta; cbn [fst snd]; [exact Os|].
+      destruct ht as [[|e0 ht'] n0]; cbn [fst snd]; [exact Os|].
+      apply hp_maybe_prune_rows_in. cbn [fst]. apply rows_in_app; [apply (rows_in_map nr (fun x => fmul p x val)); exact Ot|exact Os]. }
+    assert (H3 : rows_in nr (fst (hp_msa true p val ht ls))).
+    { unfold hp_msa. destruct (val =? 0); [exact Ot|]. destruct ls as [|e hs']; [exact Ot|].
+      destruct ht as [[|e0 ht'] n0]; cbn [fst snd].
+      * apply (rows_in_map nr (fun x => fmul p x val)). exact Os.
+      * apply hp_maybe_prune_rows_in. cbn [fst]. apply rows_in_app; [exact Ot|apply (rows_in_map nr (fun x => fmul p x val)); exact Os]. }
+    cbn [all_fixed f_heap_fix]. tauto.
+  - destruct Ot as [St Rt]. destruct Os as [Ss Rs].
+    assert (Lt : rows_in nr (lz_live zt)) by (apply rows_in_filter; exact Rt).
+    assert (Ls : rows_in nr (lz_live zs)) by (apply rows_in_filter; exact Rs).
+    destruct (sp_ops_rows_in p nr val (lz_live zt) (lz_live zs) Lt Ls) as [R1 [R2 R3]].
+    assert (H1 : rows_in nr (fst (lz_add p zt zs))).
+    { unfold lz_add. destruct (fst zs); [exact Rt|]. destruct (fst zt); [exact Ls|exact R1]. }
+    assert (H2 : rows_in nr (fst (lz_mta p val zt zs))).
+    { unfold lz_mta. destruct (val =? 0); cbv beta iota zeta; cbn [fst snd]; [exact Ls|]. destruct zt as [[|e0 l0] er]; cbn [fst snd]; [exact Ls|exact R2]. }
+    assert (H3 : rows_in nr (fst (lz_msa p val zt zs))).
+    { unfold lz_msa. destruct (val =? 0); [exact Rt|]. destruct (fst zs); [exact Rt|exact R3]. }
+    tauto.
+Qed.
+
+(* ---- scaling, zeroing, relabelling, construction keep the column invariant *)
+Lemma reduced_nil p : reduced p [].
+Proof. intros e []. Qed.
+Lemma c_scale_keeps_inv p nr kind v c : 0 < p -> col_inv p nr kind c -> col_inv p nr kind (c_scale p v c).
+Proof.
+  intros Hp [W [O K]]. unfold col_inv, c_scale.
+  destruct c as [l|h|z]; cbn [c_wf c_ok c_kind] in *; destruct (v mod p =? 0); cbn [c_wf c_ok c_kind fst snd].
+  - pose proof (reduced_nil p). pose proof (rows_in_nil nr). cbn [sorted]. tauto.
+  - destruct W as [S R]. destruct O as [_ Ri].
+    split; [split; [apply (sorted_map (fun x => fmul p x (v mod p))); exact S|apply reduced_scale; exact Hp]|].
+    split; [split; [apply (sorted_map (fun x => fmul p x (v mod p))); exact S|apply (rows_in_map nr (fun x => fmul p x (v mod p))); exact Ri]|exact K].
+  - split; [exact I|]. split; [apply rows_in_nil|exact K].
+  - split; [exact I|]. split; [apply (rows_in_map nr (fun x => fmul p x (v mod p))); exact O|exact K].
+  - pose proof (reduced_nil p). pose proof (rows_in_nil nr). cbn [sorted]. tauto.
+  - destruct W as [S R]. destruct O as [_ Ri].
+    split; [split; [apply (sorted_map (fun x => fmul p x (v mod p))); exact S|apply reduced_scale; exact Hp]|].
+    split; [split; [apply (sorted_map (fun x => fmul p x (v mod p))); exact S|apply (rows_in_map nr (fun x => fmul p x (v mod p))); exact Ri]|exact K].
+Qed.
+
+Lemma c_clear_row_keeps_inv fl p nr kind c q : col_inv p nr kind c -> col_inv p nr kind (c_clear_row fl p c q).
+Proof.
+  intros [W [O K]]. unfold col_inv.
+  destruct c as [l|h|z]; cbn [c_clear_row c_wf c_ok c_kind] in *.
+  - destruct W as [S R]. destruct O as [_ Ri]. unfold sdel.
+    split; [split; [apply sorted_filter; exact S|apply reduced_filter; exact R]|].
+    split; [split; [apply sorted_filter; exact S|apply rows_in_filter; exact Ri]|exact K].
+  - split; [exact I|]. split; [|exact K]. unfold hp_clear_row. cbn [fst]. apply rows_in_filter. apply hp_pop_all_rows_in. exact O.
+  - destruct W as [S R]. destruct O as [_ Ri].
+    assert (H : sorted (fst (lz_clear_row (f_lazy_fix fl) (f_ra fl) z q)) /\ reduced p (fst (lz_clear_row (f_lazy_fix fl) (f_ra fl) z q)) /\
+                rows_in nr (fst (lz_clear_row (f_lazy_fix fl) (f_ra fl) z q))).
+    { unfold lz_clear_row. destruct (f_ra fl).
+      - destruct (shas (lz_live z) q); [|tauto]. cbn [fst]. unfold sdel.
+        split; [apply sorted_filter; exact S|]. split; [apply reduced_filter; exact R|apply rows_in_filter; exact Ri].
+      - destruct (zmem q (snd z)); [tauto|]. destruct (f_lazy_fix fl); [destruct (shas (fst z) q)|]; cbn [fst]; tauto. }
+    tauto.
+Qed.
+Lemma c_clear_keeps_inv p nr kind c : col_inv p nr kind c -> col_inv p nr kind (c_clear c).
+Proof.
+  intros [W [O K]]. unfold col_inv. pose proof (reduced_nil p). pose proof (rows_in_nil nr).
+  destruct c; cbn [c_clear c_wf c_ok c_kind fst sorted] in *; tauto.
+Qed.
+
+(* sorting the relabelled entries *)
+Lemma rows_gt_sinsert r e s : r < fst e -> rows_gt r s -> rows_gt r (sinsert e s).
+Proof.
+  induction s as [|h t IH]; intros H1 H2; [simpl; auto|]. cbn [sinsert]. destruct H2 as [H2 H3].
+  destruct (fst e <? fst h); simpl; auto.
+Qed.
+Lemma sorted_sinsert e s : sorted s -> shas s (fst e) = false -> sorted (sinsert e s).
+Proof.
+  induction s as [|h t IH]; intros Hs Hn; [simpl; auto|]. cbn [sinsert]. destruct Hs as [H1 H2].
+  destruct h as [rh vh]. cbn [shas] in Hn. apply orb_false_iff in Hn. destruct Hn as [Hn1 Hn2]. cbn [fst] in *.
+  destruct (fst e <? rh) eqn:E.
+  - simpl. split; [split; [lia|apply rows_gt_trans with rh; [lia|exact H1]]|split; assumption].
+  - simpl. split; [apply rows_gt_sinsert; [lia|exact H1]|apply IH; assumption].
+Qed.
+Lemma sorted_ssort l : distinct l -> sorted (ssort l).
+Proof.
+  induction l as [|e t IH]; intros Hd; [exact I|]. destruct Hd as [H1 H2].
+  unfold ssort. cbn [fold_right]. fold (ssort t). apply sorted_sinsert; [apply IH; exact H2|rewrite shas_ssort; exact H1].
+Qed.
+Lemma in_sinsert e s x : In x (sinsert e s) <-> x = e \/ In x s.
+Proof.
+  induction s as [|h t IH]; [simpl; intuition|]. cbn [sinsert]. destruct (fst e <? fst h); simpl; [intuition|].
+  rewrite IH. intuition.
+Qed.
+Lemma in_ssort l x : In x (ssort l) <-> In x l.
+Proof.
+  induction l as [|e t IH]; [reflexivity|]. unfold ssort. cbn [fold_right]. fold (ssort t). rewrite in_sinsert, IH. simpl. intuition.
+Qed.
+
+Lemma c_reorder_keeps_inv p nr kind f g c : 0 < p ->
+  (forall q, 0 <= q < Z.of_nat nr -> 0 <= f q < Z.of_nat nr /\ g (f q) = q) ->
+  (forall k, 0 <= k < Z.of_nat nr -> 0 <= g k < Z.of_nat nr /\ f (g k) = k) ->
+  col_inv p nr kind c -> col_inv p nr kind (c_reorder p f c).
+Proof.
+  intros Hp Hfg Hgf [W [O K]]. unfold col_inv.
+  assert (Hrel : forall l, rows_in nr l -> rows_in nr (relabel f l)).
+  { intros l Hl e He. unfold relabel in He. apply in_map_iff in He. destruct He as [e0 [<- He0]]. cbn [fst]. apply Hfg. apply Hl. exact He0. }
+  assert (Hsorted : forall l, sorted l -> rows_in nr l -> reduced p l ->
+            sorted (ssort (relabel f l)) /\ reduced p (ssort (relabel f l)) /\ rows_in nr (ssort (relabel f l))).
+  { intros l Sl Rl Pl. split; [apply sorted_ssort; apply (distinct_relabel nr f g Hfg Hgf); [exact Rl|apply sorted_distinct; exact Sl]|]. split.
+    - intros e He. apply (proj1 (in_ssort _ _)) in He. unfold relabel in He. apply in_map_iff in He. destruct He as [e0 [<- He0]]. cbn [snd]. apply Pl. exact He0.
+    - intros e He. apply (proj1 (in_ssort _ _)) in He. apply (Hrel l Rl). exact He. }
+  destruct c as [l|h|z]; cbn [c_reorder c_wf c_ok c_kind] in *.
+  - destruct W as [S R]. destruct O as [_ Ri]. change (map _ l) with (relabel f l). destruct (Hsorted l S Ri R) as [A [B C]]. tauto.
+  - split; [exact I|]. split; [|exact K]. unfold hp_reorder. cbn [fst]. change (map _ ?L) with (relabel f L).
+    apply Hrel. apply hp_pop_all_rows_in. exact O.
+  - destruct W as [S R]. destruct O as [_ Ri]. unfold lz_reorder. cbn [fst]. change (map _ ?L) with (relabel f L).
+    destruct (Hsorted (lz_live z) (lz_live_sorted z S) (rows_in_filter nr _ _ Ri) (reduced_live p z R)) as [A [B C]]. tauto.
+Qed.
+
+Lemma c_make_inv kind p nr es : 0 < p -> kind = 0 \/ kind = 1 \/ kind = 2 -> sorted es -> rows_in nr es -> col_inv p nr kind (c_make kind p es).
+Proof.
+  intros Hp Hk Hs Hin. unfold col_inv, c_make.
+  assert (S : sorted (entries_of p es)) by (apply entries_of_sorted; exact Hs).
+  assert (R : reduced p (entries_of p es)) by (apply entries_of_reduced; exact Hp).
+  assert (I' : rows_in nr (entries_of p es)) by (unfold entries_of; apply (rows_in_map nr (fun v => v mod p)); exact Hin).
+  destruct Hk as [-> | [-> | ->]]; cbn [Z.eqb Pos.eqb c_wf c_ok c_kind fst]; tauto.
+Qed.
+Lemma c_empty_inv kind p nr : kind = 0 \/ kind = 1 \/ kind = 2 -> col_inv p nr kind (c_empty kind).
+Proof.
+  intros Hk. unfold col_inv, c_empty. pose proof (reduced_nil p). pose proof (rows_in_nil nr).
+  destruct Hk as [-> | [-> | ->]]; cbn [Z.eqb Pos.eqb c_wf c_ok c_kind fst sorted]; tauto.
+Qed.
+
+(* ---- one step of any operation keeps the matrix invariant and commutes with the abstraction *)
+Inductive op :=
+  | OAdd (s t : Z) | OMta (s c t : Z) | OMsa (c s t : Z) | OZe (c r : Z) | OZc (c : Z)
+  | OSr (r1 r2 : Z) | OSc (c1 c2 : Z) | OOrder | ORc (idx : Z) | ORl | OIns (es : svec).
+Definition opt_or {A} (o : option A) (d : A) : A := match o with Some x => x | None => d end.
+Definition a_step (mapc ra : bool) (kind p : Z) (m : amat) (o : op) : amat :=
+  match o with
+  | OAdd s t => opt_or (a_add p m s t) m
+  | OMta s c t => opt_or (a_mta p m s c t) m
+  | OMsa c s t => opt_or (a_msa (all_fixed ra) p m c s t) m
+  | OZe c r => opt_or (a_zero_entry (all_fixed ra) p m c r) m
+  | OZc c => opt_or (a_zero_col m c) m
+  | OSr r1 r2 => a_swap_rows m r1 r2
+  | OSc c1 c2 => opt_or (a_swap_cols ra m c1 c2) m
+  | OOrder => a_order (all_fixed ra) mapc p m
+  | ORc idx => a_remove_col m idx
+  | ORl => a_remove_last m
+  | OIns es => a_insert (all_fixed ra) mapc kind p m es
+  end.
+Definition d_step (mapc : bool) (p : Z) (nr : nat) (d : dmat) (o : op) : dmat :=
+  match o with
+  | OAdd s t => opt_or (d_add p d s t) d
+  | OMta s c t => opt_or (d_mta p d s c t) d
+  | OMsa c s t => opt_or (d_msa p d c s t) d
+  | OZe c r => opt_or (d_zero_entry d c r) d
+  | OZc c => opt_or (d_zero_col nr d c) d
+  | OSr r1 r2 => d_swap_rows d r1 r2
+  | OSc c1 c2 => opt_or (d_swap_cols d c1 c2) d
+  | OOrder => d
+  | ORc idx => d_remove_col d idx
+  | ORl => d_remove_last d
+  | OIns es => d_insert mapc p nr d es
+  end.
+Definition op_ok (nr : nat) (o : op) : Prop :=
+  match o with
+  | OAdd s t => 0 <= t
+  | OMta s c t => 0 <= t
+  | OMsa c s t => 0 <= t
+  | OZe c r => 0 <= c /\ 0 <= r < Z.of_nat nr
+  | OZc c => 0 <= c
+  | OSr r1 r2 => 0 <= r1 < Z.of_nat nr /\ 0 <= r2 < Z.of_nat nr
+  | OSc c1 c2 => 0 <= c1 /\ 0 <= c2
+  | OOrder => True
+  | ORc idx => 0 <= idx
+  | ORl => True
+  | OIns es => sorted es /\ rows_in nr es
+  end.
+
+Lemma in_lset_some {A} (l : list (option A)) n x c : In (Some c) (lset l n None (Some x)) -> c = x \/ In (Some c) l.
+Proof.
+  revert l. induction n as [|n IH]; intros l H; destruct l as [|h t]; cbn [lset] in H.
+  - destruct H as [H|[]]. left. congruence.
+  - destruct H as [H|H]; [left; congruence|right; right; exact H].
+  - destruct H as [H|H]; [discriminate|]. destruct (IH [] H) as [E|[]]. left. exact E.
+  - destruct H as [H|H]; [right; left; exact H|]. destruct (IH t H) as [E|E]; [left; exact E|right; right; exact E].
+Qed.
+Lemma in_lset_none {A} (l : list (option A)) n c : In (Some c) (lset l n None None) -> In (Some c) l.
+Proof.
+  revert l. induction n as [|n IH]; intros l H; destruct l as [|h t]; cbn [lset] in H.
+  - destruct H as [H|[]]. discriminate.
+  - destruct H as [H|H]; [discriminate|right; exact H].
+  - destruct H as [H|H]; [discriminate|]. destruct (IH [] H).
+  - destruct H as [H|H]; [left; exact H|right; apply IH; exact H].
+Qed.
+Lemma a_col_in m j c : a_col m j = Some c -> In (Some c) (a_cols m).
+Proof.
+  unfold a_col, lget. destruct (j <? 0); [discriminate|]. intros H.
+  destruct (Nat.lt_ge_cases (Z.to_nat j) (length (a_cols m))) as [Hlt|Hge].
+  - rewrite <- H. apply nth_In. exact Hlt.
+  - rewrite nth_overflow in H by exact Hge. discriminate.
+Qed.
+Lemma abs_col_none p nr m j : a_col m j = None -> d_col (a_abs p nr m) j = None.
+Proof. intros H. unfold d_col. rewrite a_abs_cols, lget_map by reflexivity. unfold a_col in H. rewrite H. reflexivity. Qed.
+Lemma c_msa_flags ra p v t s : c_msa (all_fixed ra) p v t s = c_msa (all_fixed false) p v t s.
+Proof. destruct t; destruct s; reflexivity. Qed.
+
+Section Step.
+  Variables (mapc ra : bool) (kind p : Z) (nr : nat).
+  Hypothesis Hkind : kind = 0 \/ kind = 1 \/ kind = 2.
+
+  Lemma m_inv_with_cols m cols nx : m_inv p nr kind m -> 0 <= nx ->
+    (forall c, In (Some c) cols -> col_inv p nr kind c) -> m_inv p nr kind (a_with_cols m cols nx).
+  Proof. intros [H1 [H2 [H3 [H4 H5]]]] Hn Hc. unfold m_inv. cbn [a_with_cols a_next a_i2r a_r2i a_sw a_cols]. tauto. Qed.
+
+  (* the fused operations, source different from or equal to the target *)
+  Lemma step_upd2 m s t f a b :
+    m_inv p nr kind m -> 0 <= t ->
+    (forall ct cs, a_col m t = Some ct -> a_col m s = Some cs ->
+        col_inv p nr kind (f ct cs) /\ forall q, c_get p (f ct cs) q = (a * c_get p ct q + b * c_get p cs q) mod p) ->
+    m_inv p nr kind (opt_or (a_upd2 m s t f) m) /\
+    a_abs p nr (opt_or (a_upd2 m s t f) m) = opt_or (d_axpy p (a_abs p nr m) a t b s) (a_abs p nr m).
+  Proof.
+    intros Hinv Ht Hf. pose proof Hinv as [Hp _].
+    destruct (a_col m t) as [ct|] eqn:Et; [destruct (a_col m s) as [cs|] eqn:Es|].
+    - destruct (Hf ct cs eq_refl eq_refl) as [Hci Hget].
+      pose proof (a_upd2_refines p nr m s t f a b ct cs Hp Et Es Ht Hget) as Href.
+      unfold a_upd2 in *. rewrite Et, Es in *. cbn [opt_or]. split.
+      + apply m_inv_with_cols; [exact Hinv|destruct Hinv as [_ [Hn _]]; exact Hn|].
+        intros c Hc. destruct (in_lset_some _ _ _ _ Hc) as [->|Hin]; [exact Hci|]. destruct Hinv as [_ [_ [_ [_ H5]]]]. apply H5. exact Hin.
+      + destruct (d_axpy p (a_abs p nr m) a t b s); [injection Href as ->; reflexivity|discriminate].
+    - unfold a_upd2. rewrite Et, Es. cbn [opt_or]. split; [exact Hinv|].
+      unfold d_axpy. rewrite (abs_col_none p nr m s Es). destruct (d_col (a_abs p nr m) t); reflexivity.
+    - unfold a_upd2. rewrite Et. cbn [opt_or]. split; [exact Hinv|].
+      unfold d_axpy. rewrite (abs_col_none p nr m t Et). reflexivity.
+  Qed.
+
+  Lemma step_upd1 m c f g :
+    m_inv p nr kind m -> 0 <= c ->
+    (forall x, a_col m c = Some x -> col_inv p nr kind (f x) /\ read_col p nr (a_i2r m) (f x) = g (read_col p nr (a_i2r m) x)) ->
+    m_inv p nr kind (opt_or (a_upd1 m c f) m) /\
+    a_abs p nr (opt_or (a_upd1 m c f) m) = opt_or (d_upd (a_abs p nr m) c g) (a_abs p nr m).
+  Proof.
+    intros Hinv Hc Hf. destruct (a_col m c) as [x|] eqn:Ex.
+    - destruct (Hf x eq_refl) as [Hci Hrd].
+      pose proof (a_upd1_refines p nr m c f g x Hc Ex Hrd) as Href.
+      unfold a_upd1 in *. rewrite Ex in *. cbn [opt_or]. split.
+      + apply m_inv_with_cols; [exact Hinv|destruct Hinv as [_ [Hn _]]; exact Hn|].
+        intros c0 Hc0. destruct (in_lset_some _ _ _ _ Hc0) as [->|Hin]; [exact Hci|]. destruct Hinv as [_ [_ [_ [_ H5]]]]. apply H5. exact Hin.
+      + destruct (d_upd (a_abs p nr m) c g); [injection Href as ->; reflexivity|discriminate].
+    - unfold a_upd1. rewrite Ex. cbn [opt_or]. split; [exact Hinv|].
+      unfold d_upd. rewrite (abs_col_none p nr m c Ex). reflexivity.
+  Qed.
+
+  Lemma m_inv_order m : m_inv p nr kind m ->
+    m_inv p nr kind (a_order (all_fixed ra) mapc p m) /\ a_sw (a_order (all_fixed ra) mapc p m) = false /\
+    a_next (a_order (all_fixed ra) mapc p m) = a_next m /\ a_abs p nr (a_order (all_fixed ra) mapc p m) = a_abs p nr m.
+  Proof.
+    intros Hinv. pose proof Hinv as [Hp [Hn [[L1 [L2 [P1 P2]]] [Hsw Hcols]]]].
+    assert (Habs : a_abs p nr (a_order (all_fixed ra) mapc p m) = a_abs p nr m).
+    { apply order_rows_invisible; try assumption. intros c Hc. destruct (Hcols c Hc) as [_ [Ho _]]. exact Ho. }
+    split; [|split; [|split; [|exact Habs]]].
+    - unfold a_order. destruct (a_sw m) eqn:Es; [|exact Hinv].
+      cbn [all_fixed f_order_fix]. unfold m_inv. cbn [a_next a_i2r a_r2i a_sw a_cols].
+      assert (E1 : reset_below (a_i2r m) 0 (length (a_i2r m)) = idperm nr) by (rewrite reset_below_full, L1; reflexivity).
+      assert (E2 : reset_below (a_r2i m) 0 (length (a_i2r m)) = idperm nr) by (rewrite L1, <- L2, reset_below_full, L2; reflexivity).
+      rewrite E1, E2. split; [exact Hp|]. split; [exact Hn|]. split; [apply perm_inv_id|]. split; [intros _; split; reflexivity|].
+      intros c Hc. apply in_map_iff in Hc. destruct Hc as [[c0|] [Hc0 Hin]]; [|discriminate]. injection Hc0 as <-.
+      apply (c_reorder_keeps_inv p nr kind (pget (a_r2i m)) (pget (a_i2r m))); try assumption. apply Hcols. exact Hin.
+    - unfold a_order. destruct (a_sw m) eqn:Es; [reflexivity|exact Es].
+    - unfold a_order. destruct (a_sw m); reflexivity.
+  Qed.
+
+  Theorem step_refines m o : m_inv p nr kind m -> op_ok nr o ->
+    m_inv p nr kind (a_step mapc ra kind p m o) /\ a_abs p nr (a_step mapc ra kind p m o) = d_step mapc p nr (a_abs p nr m) o.
+  Proof.
+    intros Hinv Hok. pose proof Hinv as [Hp [Hn [[L1 [L2 [P1 P2]]] [Hsw Hcols]]]].
+    assert (Hci : forall j c, a_col m j = Some c -> col_inv p nr kind c) by (intros j c Hc; apply Hcols; apply (a_col_in m j); exact Hc).
+    destruct o as [s t|s c t|c s t|c r|c|r1 r2|c1 c2| |idx| |es]; cbn [a_step d_step op_ok] in *.
+    - (* add *) unfold a_add, d_add. destruct (s =? t) eqn:E.
+      + assert (s = t) by lia. subst s. apply step_upd2; [exact Hinv|exact Hok|]. intros ct cs Ht Hs. rewrite Ht in Hs. injection Hs as <-.
+        split; [apply c_scale_keeps_inv; [exact Hp|apply (Hci t); exact Ht]|]. intros q. rewrite c_scale_content by exact Hp. f_equal. lia.
+      + apply step_upd2; [exact Hinv|exact Hok|]. intros ct cs Ht Hs.
+        destruct (column_ops_keep_inv p nr kind 0 ct cs Hp (Hci t ct Ht) (Hci s cs Hs)) as [H1 _]. split; [exact H1|].
+        intros q. destruct (Hci t ct Ht) as [W1 [_ K1]]. destruct (Hci s cs Hs) as [W2 [_ K2]].
+        rewrite column_add_content by (try assumption; apply same_kind_of_kind; congruence). f_equal. lia.
+    - (* multiply target and add *) unfold a_mta, d_mta. destruct (s =? t) eqn:E.
+      + assert (s = t) by lia. subst s. apply step_upd2; [exact Hinv|exact Hok|]. intros ct cs Ht Hs. rewrite Ht in Hs. injection Hs as <-.
+        split; [apply c_scale_keeps_inv; [exact Hp|apply (Hci t); exact Ht]|]. intros q. rewrite c_scale_content by exact Hp. f_equal. lia.
+      + apply step_upd2; [exact Hinv|exact Hok|]. intros ct cs Ht Hs.
+        destruct (column_ops_keep_inv p nr kind (c mod p) ct cs Hp (Hci t ct Ht) (Hci s cs Hs)) as [_ [H2 _]]. split; [exact H2|].
+        intros q. destruct (Hci t ct Ht) as [W1 [_ K1]]. destruct (Hci s cs Hs) as [W2 [_ K2]].
+        rewrite column_mul_target_content by (try assumption; try (apply Z.mod_pos_bound; lia); apply same_kind_of_kind; congruence). f_equal. lia.
+    - (* multiply source and add *) unfold a_msa, d_msa. destruct (s =? t) eqn:E.
+      + assert (s = t) by lia. subst s. apply step_upd2; [exact Hinv|exact Hok|]. intros ct cs Ht Hs. rewrite Ht in Hs. injection Hs as <-.
+        split; [apply c_scale_keeps_inv; [exact Hp|apply (Hci t); exact Ht]|]. intros q. rewrite c_scale_content by exact Hp. f_equal. lia.
+      + apply step_upd2; [exact Hinv|exact Hok|]. intros ct cs Ht Hs. rewrite c_msa_flags.
+        destruct (column_ops_keep_inv p nr kind (c mod p) ct cs Hp (Hci t ct Ht) (Hci s cs Hs)) as [_ [_ H3]]. split; [exact H3|].
+        intros q. destruct (Hci t ct Ht) as [W1 [_ K1]]. destruct (Hci s cs Hs) as [W2 [_ K2]].
+        rewrite column_mul_source_content by (try assumption; try (apply Z.mod_pos_bound; lia); apply same_kind_of_kind; congruence). f_equal. lia.
+    - (* zero_entry *) destruct Hok as [Hc Hr]. unfold a_zero_entry, d_zero_entry. apply step_upd1; [exact Hinv|exact Hc|].
+      intros x Hx. split; [apply c_clear_row_keeps_inv; apply (Hci c); exact Hx|].
+      apply dvec_ext.
+      + rewrite length_dset, !length_read_col. reflexivity.
+      + intros k Hk. rewrite length_read_col in Hk. rewrite dget_dset by (rewrite ?length_read_col; lia).
+        rewrite !read_col_get by exact Hk. rewrite c_clear_row_content by exact Hp.
+        destruct (k =? r) eqn:E.
+        * assert (k = r) by lia. subst k. rewrite Z.eqb_refl. reflexivity.
+        * destruct (pget (a_i2r m) k =? pget (a_i2r m) r) eqn:E2; [|reflexivity].
+          assert (pget (a_i2r m) k = pget (a_i2r m) r) as Heq by lia.
+          destruct (P1 k Hk) as [_ H1]. destruct (P1 r Hr) as [_ H2]. rewrite Heq in H1. lia.
+    - (* zero_column *) unfold a_zero_col, d_zero_col. apply step_upd1; [exact Hinv|exact Hok|].
+      intros x Hx. split; [apply c_clear_keeps_inv; apply (Hci c); exact Hx|].
+      unfold read_col, dzero. rewrite (map_ext _ (fun _ => 0)) by (intros a; apply c_clear_content).
+      generalize 0%nat. clear. induction nr as [|n IH]; intros st; [reflexivity|]. cbn [seq map repeat]. rewrite IH. reflexivity.
+    - (* swap_rows *) destruct Hok as [Hr1 Hr2]. split; [|apply swap_rows_lazy_eq_eager; assumption].
+      unfold m_inv, a_swap_rows. cbn [a_next a_i2r a_r2i a_sw a_cols]. split; [exact Hp|]. split; [exact Hn|].
+      split; [apply perm_inv_swap; [unfold perm_inv; tauto|exact Hr1|exact Hr2]|]. split; [discriminate|exact Hcols].
+    - (* swap_columns *) destruct Hok as [Hc1 Hc2].
+      destruct (a_col m c1) as [x1|] eqn:E1; [destruct (a_col m c2) as [x2|] eqn:E2|].
+      + pose proof (matrix_swap_columns_refines ra p nr m c1 c2 x1 x2 Hc1 Hc2 E1 E2) as Href.
+        unfold a_swap_cols in *. rewrite E1, E2 in *. cbn [opt_or]. split.
+        * unfold m_inv. cbn [a_next a_i2r a_r2i a_sw a_cols]. split; [exact Hp|]. split; [exact Hn|]. split; [unfold perm_inv; tauto|].
+          split; [intros Hf; apply orb_false_iff in Hf; destruct Hf as [Hf _]; apply Hsw; exact Hf|].
+          intros c Hc. destruct (in_lset_some _ _ _ _ Hc) as [->|Hin]; [apply (Hci c1); exact E1|].
+          destruct (in_lset_some _ _ _ _ Hin) as [->|Hin2]; [apply (Hci c2); exact E2|apply Hcols; exact Hin2].
+        * destruct (d_swap_cols (a_abs p nr m) c1 c2); [injection Href as ->; reflexivity|discriminate].
+      + unfold a_swap_cols. rewrite E1, E2. cbn [opt_or]. split; [exact Hinv|].
+        unfold d_swap_cols. rewrite (abs_col_none p nr m c2 E2). destruct (d_col (a_abs p nr m) c1); reflexivity.
+      + unfold a_swap_cols. rewrite E1. cbn [opt_or]. split; [exact Hinv|].
+        unfold d_swap_cols. rewrite (abs_col_none p nr m c1 E1). reflexivity.
+    - (* order *) destruct (m_inv_order m Hinv) as [H1 [_ [_ H4]]]. split; assumption.
+    - (* remove_column *) split; [|apply matrix_remove_refines].
+      unfold a_remove_col. apply m_inv_with_cols; [exact Hinv|destruct (idx =? a_next m - 1) eqn:E; lia|].
+      intros c Hc. apply Hcols. apply in_lset_none in Hc. exact Hc.
+    - (* remove_last *) split; [|apply matrix_remove_refines; exact 0].
+      unfold a_remove_last. destruct (a_next m =? 0) eqn:E; [exact Hinv|].
+      apply m_inv_with_cols; [exact Hinv|lia|]. intros c Hc. apply Hcols. apply in_lset_none in Hc. exact Hc.
+    - (* insert_column *) destruct Hok as [Hs Hin].
+      destruct (m_inv_order m Hinv) as [Hinv' [Hsw' [Hn' Habs']]].
+      set (m' := a_order (all_fixed ra) mapc p m) in *.
+      assert (Hsame : a_insert (all_fixed ra) mapc kind p m es = a_insert (all_fixed ra) mapc kind p m' es).
+      { assert (Hord : a_order (all_fixed ra) mapc p m' = m') by (unfold a_order; rewrite Hsw'; reflexivity).
+        unfold a_insert, a_insert_at. change (a_order (all_fixed ra) mapc p m) with m'. rewrite Hord, Hn'. reflexivity. }
+      rewrite Hsame. pose proof Hinv' as [_ [Hn2 [_ [Hsw2 Hcols2]]]]. destruct (Hsw2 Hsw') as [Hid _].
+      split.
+      + unfold a_insert, a_insert_at. unfold a_order. rewrite Hsw'. rewrite fill_holes_same.
+        assert (Hsm : forall (A : Type) (x : A), (if mapc then x else x) = x) by (intros; destruct mapc; reflexivity). rewrite Hsm.
+        apply m_inv_with_cols; [exact Hinv'|destruct (a_next m' <=? a_next m'); lia|].
+        intros c Hc. destruct (in_lset_some _ _ _ _ Hc) as [->|Hin2]; [apply c_make_inv; assumption|apply Hcols2; exact Hin2].
+      + rewrite <- Habs'. replace (all_fixed ra) with (all_fixed ra) by reflexivity.
+        assert (Hfl : a_insert (all_fixed ra) mapc kind p m' es = a_insert (all_fixed false) mapc kind p m' es).
+        { unfold a_insert, a_insert_at, a_order. rewrite Hsw'. reflexivity. }
+        rewrite Hfl. apply matrix_insert_refines; assumption.
+  Qed.
+
+  (* every history of operations: the algorithm model, read through its row dictionary, is the dense matrix of the history *)
+  Theorem history_refines ops : forall m, m_inv p nr kind m -> Forall (op_ok nr) ops ->
+    m_inv p nr kind (fold_left (a_step mapc ra kind p) ops m) /\
+    a_abs p nr (fold_left (a_step mapc ra kind p) ops m) = fold_left (d_step mapc p nr) ops (a_abs p nr m).
+  Proof.
+    induction ops as [|o ops IH]; intros m Hinv Hok; [split; [exact Hinv|reflexivity]|].
+    inversion Hok as [|? ? Ho Hrest]; subst. destruct (step_refines m o Hinv Ho) as [H1 H2].
+    cbn [fold_left]. rewrite <- H2. apply IH; assumption.
+  Qed.
+End Step.
+
+(* the empty matrix satisfies the invariant *)
+Lemma m_inv_empty p nr kind : 0 < p -> m_inv p nr kind (a_empty nr).
+Proof.
+  intros Hp. unfold m_inv, a_empty. cbn [a_next a_i2r a_r2i a_sw a_cols]. split; [exact Hp|]. split; [lia|].
+  split; [apply perm_inv_id|]. split; [intros _; split; reflexivity|intros c []].
+Qed.
+
+Example ex_history_ops_ok :
+  Forall (op_ok 4) [OIns [(0, 1); (2, 3)]; OIns []; OIns [(1, 7); (3, 4)]; OMsa 2 0 1; OSr 0 3; OZe 0 3; OAdd 0 0; OMta 0 (-1) 2;
+                    OSc 0 2; OOrder; OZc 1; ORl; ORc 0; OAdd 5 1].
+Proof.
+  repeat constructor; simpl; try lia; try exact I; try (intros e0 [<-|[<-|[]]]; simpl; lia); try (intros e0 []).
+  all: simpl in *; intuition (subst; simpl; lia).
+Qed.
+Example ex_history_run :
+  let ops := [OIns [(0, 1); (2, 3)]; OIns []; OIns [(1, 7); (3, 4)]; OMsa 2 0 1; OSr 0 3; OZe 0 3; OAdd 0 0; OMta 0 (-1) 2] in
+  d_cols (fold_left (d_step false 5 4) ops (a_abs 5 4 (a_empty 4))) = [Some [0; 0; 1; 0]; Some [0; 0; 1; 2]; Some [1; 3; 1; 0]].
+Proof. vm_compute. reflexivity. Qed.
